@@ -72,6 +72,7 @@ static long _get_data(OggVorbis_File *vf)
 #endif
   ;
 
+#ifdef VERIF_ENFORCE__get_next_page
 ogg_int64_t g_off_in;     /* vf->offset at entry */
 static ogg_int64_t _get_next_page(OggVorbis_File *vf, ogg_page *og, ogg_int64_t boundary)
   __CPROVER_requires(RW(vf, sizeof(*vf)) && RW(og, sizeof(*og)) && vf->offset >= 0 && vf->offset < (1L << 61) && boundary >= -1 && boundary < (1L << 61))
@@ -99,4 +100,54 @@ static ogg_int64_t _get_next_page(OggVorbis_File *vf, ogg_page *og, ogg_int64_t 
   REACH_ENSURES(RV > g_off_in + 100000 && boundary == -1)
 #endif
   ;
+#else
+/* caller-facing form of the same contract (g_off_in := the position at entry; the
+   finite-data ghosts are internal to the proof in unit vf_get_next_page) */
+static ogg_int64_t _get_next_page(OggVorbis_File *vf, ogg_page *og, ogg_int64_t boundary)
+  __CPROVER_requires(RW(vf, sizeof(*vf)) && RW(og, sizeof(*og)) && vf->offset >= 0 && vf->offset < (1L << 61) && boundary >= -1 && boundary < (1L << 61))
+  __CPROVER_requires(vf->callbacks.read_func == NULL || vf->callbacks.read_func == verif_read_cb)
+  __CPROVER_assigns(vf->offset, vf->oy, *og, g_asked)
+  __CPROVER_ensures(RV >= 0 || RV == OV_FALSE || RV == OV_EOF || RV == OV_EREAD)
+  __CPROVER_ensures(vf->offset >= OLD(vf->offset))
+  __CPROVER_ensures(RV >= 0 ==> (RV >= OLD(vf->offset) && vf->offset > RV && vf->offset - RV <= OGG_MAXPAGE))
+  __CPROVER_ensures((RV >= 0 && boundary > 0) ==> RV < OLD(vf->offset) + boundary);
+#endif
+
+
+/* ---- backward search (C03 anchors _get_prev_page, _get_prev_page_serial) ---- */
+#ifdef VERIF_PREV
+static ogg_int64_t _get_prev_page(OggVorbis_File *vf, ogg_int64_t begin, ogg_page *og)
+  __CPROVER_requires(RW(vf, sizeof(*vf)) && RW(og, sizeof(*og)) && begin >= 0 && begin < (1L << 61))
+  __CPROVER_requires(vf->callbacks.read_func == NULL || vf->callbacks.read_func == verif_read_cb)
+  __CPROVER_requires(vf->callbacks.seek_func == NULL || vf->callbacks.seek_func == verif_seek_cb)
+  __CPROVER_assigns(vf->offset, vf->oy, *og, g_asked, g_seek_calls, g_sync_resets)
+  /* the offset of a page that starts before `begin`, or a documented code -
+     whatever the callbacks do (fail, return short, report end of data); and it
+     RETURNS: the search loop carries a decreases clause */
+  __CPROVER_ensures((RV >= 0 && RV < begin) || RV == OV_EREAD || RV == OV_EFAULT || RV == OV_EBADLINK)
+#ifdef VERIF_ENFORCE__get_prev_page
+  REACH_ENSURES(RV >= 0 && begin > 200000 && RV < 10)
+  REACH_ENSURES(RV == OV_EBADLINK)
+  REACH_ENSURES(RV == OV_EREAD)
+  REACH_ENSURES(RV == OV_EFAULT)
+#endif
+  ;
+static ogg_int64_t _get_prev_page_serial(OggVorbis_File *vf, ogg_int64_t begin, long *serial_list, int serial_n, int *serialno, ogg_int64_t *granpos)
+  __CPROVER_requires(RW(vf, sizeof(*vf)) && begin >= 0 && begin < (1L << 61) && RW(serialno, sizeof(int)) && RW(granpos, sizeof(ogg_int64_t)))
+  __CPROVER_requires(vf->callbacks.read_func == NULL || vf->callbacks.read_func == verif_read_cb)
+  __CPROVER_requires(vf->callbacks.seek_func == NULL || vf->callbacks.seek_func == verif_seek_cb)
+  __CPROVER_assigns(vf->offset, vf->oy, *serialno, *granpos, g_asked, g_seek_calls, g_sync_resets)
+  __CPROVER_ensures((RV >= 0 && RV < begin) || RV == OV_EREAD || RV == OV_EFAULT || RV == OV_EBADLINK)
+#ifdef VERIF_ENFORCE__get_prev_page_serial
+  REACH_ENSURES(RV >= 0 && begin > 200000 && RV < 10)
+  REACH_ENSURES(RV == OV_EBADLINK)
+  REACH_ENSURES(RV == OV_EREAD)
+#endif
+  ;
+/* assumed libogg accessors; _lookup_serialno by contract (list walk, its own loop) */
+int ogg_page_serialno(const ogg_page *og) __CPROVER_assigns() __CPROVER_ensures(1);
+ogg_int64_t ogg_page_granulepos(const ogg_page *og) __CPROVER_assigns() __CPROVER_ensures(1);
+static int _lookup_serialno(long s, long *serialno_list, int n)
+  __CPROVER_assigns() __CPROVER_ensures(RV == 0 || RV == 1);
+#endif
 #endif
